@@ -64,6 +64,8 @@ pub mod tcp {
 //@include-if client frag/tcp_client_mod.tpl
 }
 pub mod serial {
+    pub use crate::shims::net::open;
+//@include-if client frag/serial_mods.tpl
     pub mod frame {
 //@include frag/serial_frame.tpl
 //@include frag/serial_frame_writer.tpl
